@@ -3,8 +3,8 @@
 import json
 
 CLAIMS = {
- "C01": ("static analysis: float-purity lint over go/ssa (H1), writer/reader table extraction from SSA (T1 type words, member SRID; T1c scanner coercion guard; T2 byte-order arms and order byte), loop-completeness lint (D2), no-shared-result points-to check (B2g)",
-         "Decided statically: coordinates are only moved/bit-cast on the WKB/EWKB path (H1, for all float64 bit patterns); reader(writer(K)) = K on type words for the seven WKB kinds with both readers identical, members carry SRID 0, a multi geometry is coerced to its member only under len == 1 (T1c), byte-order arms are pure and the order byte is inverse between writer and readers (T1/T2), Marshal results reference no package-level buffer (B2g); writer member loops cover all members (D2). NOT decided: value-level round-trip equality, hex/prefix framing.",
+ "C01": ("static analysis: float-purity lint over go/ssa (H1), writer/reader table extraction from SSA (T1 type words, member SRID; T1c scanner coercion guard; T2 byte-order arms and order byte; T3 member-size forms of the byte decoders vs GeomLength), loop-completeness lint (D2), no-shared-result points-to check (B2g)",
+         "Decided statically: coordinates are only moved/bit-cast on the WKB/EWKB path (H1, for all float64 bit patterns); reader(writer(K)) = K on type words for the seven WKB kinds with both readers identical, members carry SRID 0, a multi geometry is coerced to its member only under len == 1 (T1c), byte-order arms are pure and the order byte is inverse between writer and readers (T1/T2), each byte-slice multi decoder steps over a member by exactly the size GeomLength states for that member kind (T3), Marshal results reference no package-level buffer (B2g); writer member loops cover all members (D2). NOT decided: value-level round-trip equality, hex/prefix framing.",
          "DESIGN.md §4 C01"),
  "C02": ("static analysis: type-name/tag/depth table extraction (T5), kind typestate at the coordinates stores, loop lints (D2 member loops, D4 member delegation, L3 container reset), abstract interpretation of the constructors (A)",
          "Decided statically: JSON and BSON decoders map each RFC 7946 type name to a type whose GeoJSONType() and nesting depth match, identically in both; marshal/unmarshal documents name the same members; Ring/Bound/Collection never reach \"coordinates\"; member loops complete; NewGeometry/NewFeature total. NOT decided: float text round trip, properties/ids/foreign members, byte-identical re-marshal.",
@@ -27,6 +27,9 @@ CLAIMS = {
  "C08": ("static analysis: abstract interpretation over kinds x degenerate shapes with shape-decided postconditions (A, A-post/H4), loop lints (D1-D3, D5 no early exit from accumulating loops), region-code tables (T7)",
          "Decided statically: no certain fault through any clip entry for any kind x degenerate shape; clip.Geometry yields a nil interface for nil/empty input and never a typed nil inside a non-nil interface (the form mvt Layer.Clip tests); member loops complete. NOT decided: enclosed-region preservation, area additivity.",
          "DESIGN.md §4 C08"),
+ "C09": ("static analysis: abstract interpretation of the composing functions with their callees uninterpreted (A-comp: every call of rayIntersect / RingContains / PolygonContains forks the path per possible answer and is logged with argument identities; the result of every path is compared with the stated combination of the logged answers)",
+         "Decided statically, for all coordinates and rings of 1..5 vertices, polygons of 1..4 rings, multi-polygons of 0..3 members: RingContains consults every edge of the implicitly closed ring exactly once (consecutive pairs and the closing pair), a boundary hit on any edge gives true, otherwise the result is the parity of the crossings; PolygonContains = outer ring and no hole, MultiPolygonContains = any member, and no answer is returned before the consulted members determine it. NOT decided: what rayIntersect answers for a single segment (degenerate alignments, one-ulp nudge, slope comparison), hence not the numerical independence from start vertex and direction; sizes beyond those enumerated.",
+         "DESIGN.md §4 C09"),
  "C10": ("static analysis: segment/member loop-completeness lint (D2, D3), abstract interpretation over kinds x shapes (A)",
          "Decided statically: every segment loop visits every consecutive pair, member loops every member (D2/D3); no certain fault on any kind/shape (A). NOT decided: every numeric identity.",
          "DESIGN.md §4 C10"),
@@ -77,7 +80,6 @@ EXTRA = {  # rules added after seeded changes were missed (DESIGN.md §11/§12);
 }
 
 NOT_APPLICABLE = [
- ("C09", "numerical case analysis of ray casting at degenerate alignments; no shape-level clause is a non-trivial necessary condition (DESIGN.md §5)"),
  ("C13", "bit-trick identities over a 2^64 tile space and float-to-tile mapping at domain edges; needs bit-vector solving or execution, outside static analysis (DESIGN.md §5)"),
 ]
 
